@@ -4421,7 +4421,7 @@ def _asbuf(obj):
     except Exception:
         return numpy.frombuffer(obj, np.uint8)
     else:
-        return tmp.reshape(-1).view(np.uint8)
+        return numpy.ascontiguousarray(tmp).reshape(-1).view(np.uint8)
 
 
 def _form_to_layout(
